@@ -40,6 +40,15 @@ CLAIMED = {
          "33 well-formed targets (primitives, structs, slices, pointers, nestings, Custom, Preprocess, field names of 1/31/32/33/64 bytes) receive each of ~115 zoo values (typed/untyped nils, maps and named maps of every element type, structs with unexported/embedded fields, pointer chains, arrays, NaN/Inf/extremes, json.Number, invalid UTF-8, channels, funcs...) at every input position (top level, field, element, nested field), plus every pair of zoo values at two positions (thorough), plus ~100 JSON texts (every truncation of a document, 10001-deep nesting, {} / [] / null / scalars / duplicate keys / BOM), ~22 forms and queries, environment variants and method x Content-Type combinations through zjson, zhttp and zenv against 4 schemas. Any panic is a violation, classified by innermost zog frame and message class.",
          "All targets are well-formed so a panic is attributable to data. Cyclic inputs are outside the statement.",
          "DESIGN.md section 4 C06"),
+
+ "C16": ("stateless exhaustive search over builder histories on the real code (<=3 live schemas, every Pick/Omit/Extend/Merge/Test/TestFunc/PostTransform event), every live schema compared with a reference model after every event",
+         "From a base struct schema with 0..3 tests and 0..2 PostTransforms appended one by one (so every spare-capacity situation of the underlying slices occurs), every history of <=3 (quick) / <=5 (thorough) events over up to three live schemas is executed; after each event every live schema - operands included - is probed on the real code (all fields valid; one field failing) and must run exactly the tests and PostTransforms, in the order, with the issues and destination values, of the hand-built equivalent the model keeps as immutable lists and maps.",
+         "Model semantics: later operands win, Merge concatenates in operand order, tests/posts are kept. Picks of absent keys are outside the alphabet.",
+         "DESIGN.md section 4 C16"),
+ "C19": ("stateless exhaustive search over call sequences on one schema object on the real code; deep snapshots (incl. hidden capacity) of schema-owned values and inputs, backing-array aliasing check, repeat-equals-first differential",
+         "For six schema families (slice / nested-slice / behind-pointer defaults, scalar defaults, catch values, OneOf lists, Contains params, struct/pointer/typed-map inputs, Custom with reference-typed T) every sequence of <=3 (quick) / <=4 (thorough) Parse/Validate calls with absent and present inputs is run with PostTransforms that overwrite and append to their destination. After every call all values handed to builders and all inputs must be deeply unchanged, the destination must not share a backing array with them, and a repeated call must observe what its first occurrence observed.",
+         "Callbacks mutate only through the pointer they receive. Known finding D19 (Custom[T] aliases reference-typed input) is listed in known_findings.json.",
+         "DESIGN.md section 4 C19"),
 }
 NOT_YET = "check not built yet in this round (work in progress; see DESIGN.md section 4)"
 def main():
